@@ -96,3 +96,207 @@ def decide_todo(pid, tier, sd):
 
 
 DECIDERS = {"quorum": decide_quorum, "sim": decide_todo, "timer": decide_todo, "ref": decide_todo, "tla": decide_todo}
+
+
+# ------------------------------------------------------------------------------------------------------- C20
+JAR = "/opt/veriftools/tla/tla2tools.jar"
+TLA_SPECS = {
+    # name: (dir, file, invariants, extra constants, constraint, d_Next const args, d_Init const args, coq module)
+    "dbft": ("dbft", "dbft", "TypeOK InvTwoBlocksAccepted InvFaultNodesCount", "", "MaxViewConstraint"),
+    "antiMEV": ("dbft_antiMEV", "dbft", "TypeOK InvTwoBlocksAccepted InvFaultNodesCount", "", "MaxViewConstraint"),
+    "CV3": ("dbft2.1_threeStagedCV", "dbftCV3", "TypeOK InvTwoBlocksAccepted InvFaultNodesCount", "", "MaxViewConstraint"),
+    "centralizedCV": ("dbft2.1_centralizedCV", "dbftCentralizedCV", "TypeOK InvTwoBlocksAcceptedAdvanced InvFaultNodesCount", "", "MaxViewConstraint"),
+    "multipool": ("dbftMultipool", "dbftMultipool", "TypeOK InvTwoBlocksAccepted InvFaultNodesCount", "  MaxUndeliveredMessages = 6\n", "ModelConstraint"),
+}
+FAULTS = {"good": ("{}", "{}"), "fault3": ("{3}", "{}"), "dead3": ("{}", "{3}")}
+
+
+def _tlc(spec, fault, budget, dump=None, invariants=True, workers=4):
+    d, f, invs, extra, constraint = TLA_SPECS[spec]
+    wd = os.path.join(WORK, "tla", "run-%s-%s-%s-%d" % (spec, fault, "dump" if dump else "inv", os.getpid()))
+    sh("rm -rf %s && mkdir -p %s" % (wd, wd))
+    sh("cp %s/formal-models/%s/%s.tla %s/" % (REPO, d, f, wd))
+    rf, rd = FAULTS[fault]
+    cfg = "CONSTANTS\n  RM = {0,1,2,3}\n  RMFault = %s\n  RMDead = %s\n  MaxView = 1\n%sINIT Init\nNEXT Next\nCONSTRAINT %s\n%sCHECK_DEADLOCK FALSE\n" % (
+        rf, rd, extra, constraint, ("INVARIANTS %s\n" % invs) if invariants else "")
+    with open(os.path.join(wd, "MC.cfg"), "w") as fh:
+        fh.write(cfg)
+    cmd = "timeout %d java -XX:+UseParallelGC -Xmx5g -cp %s tlc2.TLC -workers %d -metadir %s/meta -config MC.cfg %s %s.tla" % (
+        budget, JAR, workers, wd, ("-dump dot,actionlabels %s/graph" % wd) if dump else "", f)
+    t0 = time.time()
+    p = sh(cmd, cwd=wd, check=False, timeout=budget + 60)
+    out = p.stdout
+    m = re.search(r"(\d+) states generated, (\d+) distinct states found", out)
+    viol = re.search(r"Invariant (\w+) is violated", out)
+    trace = ""
+    if viol:
+        i = out.find("Error: Invariant")
+        trace = out[i:i + 20000]
+    res = {"spec": spec, "fault": fault, "rc": p.returncode, "timed_out": p.returncode == 124, "complete": "Model checking completed" in out,
+           "generated": int(m.group(1)) if m else 0, "distinct": int(m.group(2)) if m else 0, "violated": viol.group(1) if viol else None,
+           "trace": trace, "wall_s": round(time.time() - t0, 1), "cfg": cfg, "wd": wd,
+           "error": "" if (m or viol or p.returncode == 124) else out[-1500:]}
+    if not m:
+        mm = re.findall(r"([\d,]+) states generated.*?([\d,]+) distinct states", out)
+        if mm:
+            res["generated"], res["distinct"] = int(mm[-1][0].replace(",", "")), int(mm[-1][1].replace(",", ""))
+    return res
+
+
+def _edge_check(spec, budget, nedges):
+    """TLC's successor relation (a BFS prefix under RMFault={3}) must be accepted by the generated next_b"""
+    r = _tlc(spec, "fault3", budget, dump=True, invariants=False)
+    wd = r["wd"]
+    dot = os.path.join(wd, "graph.dot")
+    out = {"spec": spec, "tlc": {k: r[k] for k in ("generated", "distinct", "timed_out", "wall_s")}, "ok": False}
+    if not os.path.exists(dot):
+        out["error"] = "no dot dump: " + r.get("error", "")[:500]
+        sh("rm -rf %s" % wd)
+        return out
+    gen = os.path.join(COQ, "theories", "Tla", "gen", "Spec_%s.v" % spec)
+    na = "[3] [] [0;1;2;3]" if spec != "multipool" else "[3] [] 6 [0;1;2;3]"
+    # the section-variable order of the generated d_Next / d_Init is read from the generated file by Check below
+    chk = os.path.join(wd, "Chk_%s.v" % spec)
+    p = sh("python3 %s/tla2coq/dot2coq.py %s %s 400000 %d '%s' '%s' Spec_%s > %s" % (VERIF, dot, gen, nedges, "NEXTARGS", "INITARGS", spec, chk), check=False)
+    out["sampled"] = p.stdout.strip()[-300:]
+    sh("rm -f %s" % dot)
+    with open(gen) as fh:
+        src = fh.read()
+    # constants in section order: every `Variable X` before the definitions
+    consts = re.findall(r"^Variable (\w+) :", src, re.M)
+    vals = {"RM": "[0;1;2;3]", "RMFault": "[3]", "RMDead": "[]", "MaxView": "1", "MaxUndeliveredMessages": "6"}
+
+    def args_of(defname):
+        m = re.search(r"Definition %s\b(.*?):=" % defname, src, re.S)
+        body_start = src.find("Definition %s" % defname)
+        # after End Spec a definition takes exactly the section variables it mentions (transitively); ask Coq
+        return None
+    with open(chk) as fh:
+        c = fh.read()
+    # let Coq tell which constants each definition takes: try the plausible argument lists until one type-checks
+    import itertools
+    # cheap way: generate a probe file printing the types
+    probe = os.path.join(wd, "Probe.v")
+    with open(probe, "w") as fh:
+        fh.write("From DbftV Require Import TlaPrelude Spec_%s.\nCheck d_Next.\nCheck d_Init.\n" % spec)
+    pp = sh("coqc -Q %s/theories DbftV %s" % (COQ, probe), cwd=wd, check=False)
+    types = pp.stdout
+    def nargs(name):
+        m = re.search(r"%s\s*:\s*(.*?)(?=\n\S|\Z)" % name, types, re.S)
+        return m.group(1) if m else ""
+    def build_args(name):
+        t = nargs(name)
+        # count leading constant arguments: everything before the first 'state'
+        pre = t.split("state")[0]
+        k = pre.count("->")
+        # constants mentioned by the definition appear in section order; choose the first k-subset (in order) that type-checks
+        return k
+    ctypes = dict(re.findall(r"^Variable (\w+) : \(?([\w ]+?)\)?\.", src, re.M))
+
+    def cands_for(name):
+        t = nargs(name).replace("\n", " ")
+        pre = [x.strip().strip("()") for x in t.split("state")[0].split("->") if x.strip()]
+        out_ = []
+        for sub in itertools.combinations(consts, len(pre)):
+            if [ctypes.get(x, "?").strip() for x in sub] == pre:
+                out_.append(sub)
+        return out_ or list(itertools.combinations(consts, len(pre)))
+    found, pc = None, None
+    for subn in cands_for("d_Next"):
+        for subi in cands_for("d_Init"):
+            c2 = c.replace("NEXTARGS", " ".join(vals[x] for x in subn)).replace("INITARGS", " ".join(vals[x] for x in subi))
+            with open(chk, "w") as fh:
+                fh.write(c2)
+            pc = sh("timeout 600 coqc -Q %s/theories DbftV %s" % (COQ, chk), cwd=wd, check=False)
+            if pc.returncode == 0:
+                found = pc.stdout
+                break
+        if found:
+            break
+    if found:
+        m = re.search(r"R\s*=\s*\(\s*(true|false)\s*,\s*(\d+)\s*,\s*(\d+)\s*\)", found.replace("%nat", ""))
+        if m:
+            out.update({"init_ok": m.group(1) == "true", "edges": int(m.group(2)), "rejected": int(m.group(3))})
+            out["ok"] = out["init_ok"] and out["rejected"] == 0 and out["edges"] > 0
+        else:
+            out["error"] = "cannot parse: " + found[-300:]
+    else:
+        out["error"] = "edge check file does not compile: " + (pc.stdout[-600:] if pc else types[-300:])
+    sh("rm -rf %s" % wd)
+    return out
+
+
+def decide_tla(pid, tier, sd):
+    ps = props.proof_status(pid)
+    ev = props.base_evidence(pid, tier, sd, ps)
+    key = "tla-%s-%d-%s-%s" % (tier, sd, file_hash(tree_files(os.path.join(REPO, "formal-models"), (".tla",))), verif_hash())
+    quick = tier == "quick"
+
+    def go():
+        import concurrent.futures
+        jobs = []
+        for spec in TLA_SPECS:
+            small = spec in ("dbft", "antiMEV")
+            for fault in FAULTS:
+                if quick:
+                    if spec == "dbft":
+                        budget = 120
+                    elif spec == "antiMEV":
+                        budget = 120 if fault != "fault3" else 30  # 2.6M states with a faulty node: thorough tier
+                    else:
+                        budget = 25 if fault == "fault3" else 0   # the three large specs: a BFS prefix only
+                else:
+                    budget = 900 if small else 2400
+                if budget:
+                    jobs.append(("inv", spec, fault, budget))
+            jobs.append(("edge", spec, None, 20 if quick else 240))
+        def run(j):
+            if j[0] == "inv":
+                r = _tlc(j[1], j[2], j[3], workers=2)
+                sh("rm -rf %s" % r["wd"])
+                r.pop("wd", None)
+                return ("inv", r)
+            return ("edge", _edge_check(j[1], j[3], 150 if quick else 4000))
+        with concurrent.futures.ThreadPoolExecutor(max_workers=8) as ex:
+            res = list(ex.map(run, jobs))
+        return {"inv": [r for k, r in res if k == "inv"], "edge": [r for k, r in res if k == "edge"]}
+    g = tla_gen()
+    if not g["ok"]:
+        return _fail_build(pid, ev, "tla2coq cannot translate the current .tla files (translator fails closed)", g["log"])
+    r = cached(key, go)
+    hits = []
+    for x in r["inv"]:
+        if x["violated"]:
+            sig = "%s/%s/%s" % ({"CV3": "dbftCV3"}.get(x["spec"], x["spec"]), x["violated"], "RMFault" if x["fault"] == "fault3" else ("RMDead" if x["fault"] == "dead3" else "allgood"))
+            hits.append({"prop": pid, "sig": sig, "desc": "TLC: %s violated in %s with %s" % (x["violated"], x["spec"], x["fault"]), "trace": x["trace"][:6000], "cfg": x["cfg"]})
+    known_sigs, known_hits, new_hits = props.classify_hits(pid, hits)
+    bad_edges = [e for e in r["edge"] if not e.get("ok")]
+    tlc_errors = [x for x in r["inv"] if x.get("error")]
+    states = sum(x["distinct"] for x in r["inv"])
+    cov = ev["coverage"]
+    cov.update({
+        "programs": 5, "disagreements_checked": sum(e.get("edges", 0) for e in r["edge"]),
+        "states": states, "transitions": sum(x["generated"] for x in r["inv"]), "traces_validated_against_impl": sum(e.get("edges", 0) for e in r["edge"]),
+        "evaluations": states, "distinct_nontrivial": states,
+        "rule": "states = distinct states TLC explored on the shipped constants (RM={0..3}, MaxView=1) for each spec x {all good, RMFault={3}, RMDead={3}} within the tier's time budget; edge check = TLC-dumped transitions (RMFault={3}) that the generated Coq next-state checker must accept",
+        "samples": [{"spec": x["spec"], "fault": x["fault"], "distinct_states": x["distinct"], "complete": x["complete"], "violated": x["violated"], "wall_s": x["wall_s"]} for x in r["inv"]],
+        "edge_check": r["edge"], "cache_reused": r.get("_cache_reused", False),
+        "explanation": "proved for every RM (any N), unbounded views, |RMFault| <= F on the models regenerated from the .tla files: InvTwoBlocksAccepted of dbft.tla and dbft_antiMEV/dbft.tla; dbftCV3 refuted by a checked witness (known finding); TypeOK / InvFaultNodesCount and the two larger specs are covered by TLC on the shipped constants only (DESIGN.md C20)",
+    })
+    lines, violation = [], False
+    if new_hits:
+        h = new_hits[0]
+        path = write_replay(pid, "tlc-%d" % sd, {"property": pid, "kind": "monitor", "signature": h["sig"], "what": h["desc"], "tlc_cfg": h["cfg"], "tlc_trace": h["trace"], "all": [x["sig"] for x in new_hits]})
+        lines.append("VIOLATION property=%s replay=%s" % (pid, path))
+        violation = True
+    elif not ps["ok"] or bad_edges or tlc_errors:
+        path = write_replay(pid, "tie-%d" % sd, {"property": pid, "kind": "no-failing-input-found", "no_longer_checks": {
+            "proofs_ok": ps["ok"], "proof_log": ps["build_log"] or ps["oblig_log"], "theorems": ps["names"], "forbidden": ps["forbidden"],
+            "edge_check_failures": bad_edges, "tlc_errors": [{"spec": x["spec"], "fault": x["fault"], "error": x["error"][:800]} for x in tlc_errors]},
+            "searched": "TLC on the shipped constants, all five specs x {all good, RMFault={3}, RMDead={3}}: %d distinct states, no invariant violation outside the known finding" % states})
+        lines.append("VIOLATION property=%s replay=%s no-failing-input-found" % (pid, path))
+        violation = True
+    return props.finish(pid, ev, lines, violation, known_sigs, known_hits)
+
+
+DECIDERS["tla"] = decide_tla
